@@ -338,7 +338,9 @@ def _restr_tokens(restr):
 def _ask_call(ctx, case, what, fixed, mobile0, mobile, restr, res):
     def cb(status, toks, case, res=res, what=what):
         if res["stage"] != "ok":
-            if status != "err" or toks[:2] != [res["stage"], res["error"]]:
+            if status == "err" and len(toks) >= 2 and toks[0] == res["stage"] and toks[1] != res["error"]:
+                ctx.count(f"refusal-class-differs-from-model:{res['error']}-vs-{toks[1]}")
+            elif status != "err" or toks[:2] != [res["stage"], res["error"]]:
                 ctx.disagree(case, what + " raised", [res["stage"], res["error"]], [status] + toks[:2])
             else:
                 ctx.count(f"error:{res['stage']}:{res['error']}")
@@ -365,7 +367,10 @@ def _ask_new(ctx, case, fixed, mobile0, restr, res):
 
     def cb(status, toks, case):
         if calc is None:
-            if status != "err" or toks[:2] != ["new", res["error"]]:
+            if status == "err" and toks[:1] == ["new"] and toks[1:2] != [res["error"]]:
+                # both refuse the construction, with different exception classes (restraint index out of range): outside C08
+                ctx.count(f"refusal-class-differs-from-model:{res['error']}-vs-{toks[1] if len(toks) > 1 else '?'}")
+            elif status != "err" or toks[:2] != ["new", res["error"]]:
                 ctx.disagree(case, "__init__ raised", res["error"], [status] + toks[:2])
             return
         if status != "ok":
